@@ -1,0 +1,225 @@
+//go:build verif
+
+// Verification hook (add-only, build tag `verif`): a step-level driver of the
+// two real relays of an h2 session.  Nothing here changes relay behaviour: the
+// relays are built exactly as Config.Proxy builds them, frames are parsed by
+// the relay's own source Framer, handled by the real processFrame, and the
+// frames placed on the real output channels are written by a writer loop with
+// the same body as the one in relayFrames.  The only addition is a fence frame
+// type pushed through the output channels so that a step can wait until
+// everything it caused has been written.
+
+package h2
+
+import (
+	"bytes"
+	"fmt"
+	"io"
+	"net/url"
+	"sort"
+	"sync"
+
+	"golang.org/x/net/http2"
+)
+
+// verifBuf is a goroutine-safe byte buffer.
+type verifBuf struct {
+	mu sync.Mutex
+	b  bytes.Buffer
+}
+
+func (v *verifBuf) Write(p []byte) (int, error) {
+	v.mu.Lock()
+	defer v.mu.Unlock()
+	return v.b.Write(p)
+}
+
+func (v *verifBuf) Read(p []byte) (int, error) {
+	v.mu.Lock()
+	defer v.mu.Unlock()
+	return v.b.Read(p)
+}
+
+func (v *verifBuf) take() []byte {
+	v.mu.Lock()
+	defer v.mu.Unlock()
+	out := append([]byte(nil), v.b.Bytes()...)
+	v.b.Reset()
+	return out
+}
+
+// verifRW reads from one buffer and writes to another (one endpoint's conn).
+type verifRW struct {
+	r io.Reader
+	w io.Writer
+}
+
+func (c verifRW) Read(p []byte) (int, error)  { return c.r.Read(p) }
+func (c verifRW) Write(p []byte) (int, error) { return c.w.Write(p) }
+
+// verifFence is pushed through a relay's output channel; when the writer loop
+// reaches it every frame placed on the channel before it has been written.
+type verifFence struct{ done chan struct{} }
+
+func (f *verifFence) StreamID() uint32         { return 0 }
+func (f *verifFence) flowControlSize() int     { return 0 }
+func (f *verifFence) send(*http2.Framer) error { close(f.done); return nil }
+
+// VerifRelayPair is a session's two real relays over in-memory connections.
+type VerifRelayPair struct {
+	cToS, sToC *relay
+	// bytes the harness feeds as "sent by the client/server", and bytes the
+	// relays wrote to the client/server.
+	fromClient, fromServer, toClient, toServer *verifBuf
+	debug                                      bool
+	stop                                       chan struct{}
+	werr                                       [2]error
+	wmu                                        sync.Mutex
+}
+
+// VerifStreamWindow is one stream's send-side flow-control state in a relay.
+type VerifStreamWindow struct {
+	ID     uint32
+	Window int
+	Queued int
+}
+
+// VerifNewRelayPair builds the relays as Config.Proxy does (same constructor,
+// same circular wiring, same processor chaining) and starts one writer loop
+// per relay.
+func VerifNewRelayPair(factories []StreamProcessorFactory) *VerifRelayPair {
+	p := &VerifRelayPair{
+		fromClient: &verifBuf{}, fromServer: &verifBuf{}, toClient: &verifBuf{}, toServer: &verifBuf{},
+		stop: make(chan struct{}),
+	}
+	u, _ := url.Parse("https://verif.invalid/")
+	cc := verifRW{p.fromClient, p.toClient}
+	sc := verifRW{p.fromServer, p.toServer}
+	cf, sf := http2.NewFramer(cc, cc), http2.NewFramer(sc, sc)
+	cToS := newRelay(ClientToServer, "client", u.String(), cf, sf, &p.debug)
+	sToC := newRelay(ServerToClient, u.String(), "client", sf, cf, &p.debug)
+	cToS.peer, sToC.peer = sToC, cToS
+	cToS.processors = &streamProcessors{
+		create: func(id uint32) *Processors {
+			pr := &Processors{cToS: &relayAdapter{id, cToS}, sToC: &relayAdapter{id, sToC}}
+			for i := len(factories) - 1; i >= 0; i-- {
+				a, b := factories[i](u, pr)
+				if a == nil {
+					a = pr.ForDirection(ClientToServer)
+				}
+				if b == nil {
+					b = pr.ForDirection(ServerToClient)
+				}
+				pr = &Processors{cToS: a, sToC: b}
+			}
+			return pr
+		},
+	}
+	sToC.processors = cToS.processors
+	p.cToS, p.sToC = cToS, sToC
+	for i, r := range []*relay{cToS, sToC} {
+		go p.writer(i, r)
+	}
+	return p
+}
+
+// writer has the body of the writer goroutine in relayFrames.
+func (p *VerifRelayPair) writer(i int, r *relay) {
+	var err error
+	for {
+		select {
+		case f := <-r.output:
+			if _, isFence := f.(*verifFence); isFence {
+				f.send(nil)
+				continue
+			}
+			if err == nil {
+				r.destMu.Lock()
+				err = f.send(r.dest)
+				r.destMu.Unlock()
+				if err != nil {
+					p.wmu.Lock()
+					p.werr[i] = err
+					p.wmu.Unlock()
+				}
+			}
+		case <-p.stop:
+			return
+		}
+	}
+}
+
+func (p *VerifRelayPair) relay(dir Direction) *relay {
+	if dir == ClientToServer {
+		return p.cToS
+	}
+	return p.sToC
+}
+
+func (p *VerifRelayPair) fence() {
+	for _, r := range []*relay{p.cToS, p.sToC} {
+		f := &verifFence{done: make(chan struct{})}
+		r.output <- f
+		<-f.done
+	}
+}
+
+// Step feeds the bytes of exactly one frame as if sent by the source endpoint
+// of direction dir, lets the relay's own Framer parse it, runs the real
+// processFrame, waits until both output channels have drained, and returns the
+// bytes written to the client and to the server during the step.
+func (p *VerifRelayPair) Step(dir Direction, raw []byte) (toClient, toServer []byte, err error) {
+	r := p.relay(dir)
+	if dir == ClientToServer {
+		p.fromClient.Write(raw)
+	} else {
+		p.fromServer.Write(raw)
+	}
+	func() {
+		defer func() {
+			if x := recover(); x != nil {
+				err = fmt.Errorf("PANIC: %v", x)
+			}
+		}()
+		var f http2.Frame
+		f, err = r.src.ReadFrame()
+		if err != nil {
+			err = fmt.Errorf("reading frame: %w", err)
+			return
+		}
+		if e := r.processFrame(f); e != nil {
+			err = fmt.Errorf("processing frame: %w", e)
+		}
+	}()
+	p.fence()
+	p.wmu.Lock()
+	for _, e := range p.werr {
+		if e != nil && err == nil {
+			err = fmt.Errorf("sending frame: %w", e)
+		}
+	}
+	p.wmu.Unlock()
+	return p.toClient.take(), p.toServer.take(), err
+}
+
+// Windows reports the send-side flow-control state of the relay for dir: the
+// connection window, the initial stream window, the maximum frame size and
+// every stream's window and queue length, sorted by stream ID.
+func (p *VerifRelayPair) Windows(dir Direction) (conn int, initial, maxFrame uint32, streams []VerifStreamWindow) {
+	r := p.relay(dir)
+	r.flowMu.Lock()
+	defer r.flowMu.Unlock()
+	for id, w := range r.outputBuffers {
+		streams = append(streams, VerifStreamWindow{ID: id, Window: w.windowSize, Queued: w.queue.Len()})
+	}
+	sort.Slice(streams, func(i, j int) bool { return streams[i].ID < streams[j].ID })
+	return r.connectionWindowSize, r.initialWindowSize, r.maxFrameSize, streams
+}
+
+// Close stops the writer loops.
+func (p *VerifRelayPair) Close() { close(p.stop) }
+
+// VerifForwardPreface runs the real forwardPreface.
+func VerifForwardPreface(server io.Writer, client io.Reader) error {
+	return forwardPreface(server, client)
+}
